@@ -10,6 +10,7 @@ import (
 	"errors"
 	"fmt"
 	"os"
+	"os/exec"
 	"reflect"
 	"runtime"
 	"strings"
@@ -277,6 +278,52 @@ func vcleanup() {
 	}
 }
 
+func vnative() bool { return true }
+
+// vcliRun runs the astisub command: natively the binary built from the tree under test, in a child process. durs are
+// -a1 -a2 -d1 -d2 -f -s in nanoseconds (0 = flag not given). Returns whether it ended with an error exit.
+func vcliRun(cmd string, inputs []string, output string, page int, durs []int64) bool {
+	bin := vtmpdir() + "/astisub-cli"
+	if _, err := os.Stat(bin); err != nil {
+		c := exec.Command("go", "build", "-o", bin, "./astisub")
+		c.Env = append(os.Environ(), "GOFLAGS=-mod=mod", "GOPROXY=off", "GOSUMDB=off", "GOTOOLCHAIN=local")
+		if out, err := c.CombinedOutput(); err != nil {
+			panic(vVectorError{"building the astisub command: " + err.Error() + " " + string(out)})
+		}
+	}
+	var args []string
+	if cmd != "" {
+		args = append(args, cmd)
+	}
+	for _, i := range inputs {
+		args = append(args, "-i", i)
+	}
+	if output != "" {
+		args = append(args, "-o", output)
+	}
+	if page != 0 {
+		args = append(args, "-p", fmt.Sprint(page))
+	}
+	for i, n := range []string{"a1", "a2", "d1", "d2", "f", "s"} {
+		if i < len(durs) && durs[i] != 0 {
+			args = append(args, "-"+n, time.Duration(durs[i]).String())
+		}
+	}
+	out, err := exec.Command(bin, args...).CombinedOutput()
+	if err != nil {
+		fmt.Printf("VCLI %v: %v: %s\n", args, err, out)
+		if i := strings.Index(string(out), "panic: "); i >= 0 {
+			// a crash of the command is a run-time panic of the code under test, not an error exit
+			msg := string(out[i:])
+			if j := strings.IndexByte(msg, '\n'); j >= 0 {
+				msg = msg[:j]
+			}
+			panic("astisub command: " + msg)
+		}
+	}
+	return err != nil
+}
+
 type vEngineOnly struct{}
 
 // vengineOnly marks a harness whose oracle reads engine-side captures (e.g. the value handed to the XML encoder):
@@ -317,12 +364,26 @@ func timeDur(ns int64) time.Duration { return time.Duration(ns) }
 var vstubFail bool
 
 func vstubOpen(name string) error {
+	if vfs != nil {
+		f := vfs[name]
+		if f == nil {
+			return errors.New("verif: no such file")
+		}
+		f.pos = 0
+		return nil
+	}
 	if vstubFail {
 		return errors.New("verif: open failed")
 	}
 	return nil
 }
-func vstubCreate(name string) error { return vstubOpen(name) }
+func vstubCreate(name string) error {
+	if vfs != nil {
+		vfs[name] = &vfile{}
+		return nil
+	}
+	return vstubOpen(name)
+}
 
 // vdeepequal: structural equality following pointers (engine: own heap walk returning a formula; native: reflect).
 func vdeepequal(a, b interface{}) bool { return reflect.DeepEqual(a, b) }
